@@ -52,7 +52,7 @@ def create_dict(**kwargs):
             name: (
                 matrix.clone().detach()
                 if isinstance(matrix, torch.Tensor)
-                else torch.tensor(matrix)
+                else torch.tensor(matrix, dtype=torch.double)
             ).to(dtype=torch.double)
             for name, matrix in kwargs.items()
         }
